@@ -216,6 +216,72 @@ int main(void)
 			if (ok && was_empty) xlen = xdata[d].size();
 			dump(ok ? "ok" : "refused", xlen);
 		}
+		else if (!strcmp(op, "pset") && drv_nw == 3) {
+			/* polyline::set(tr, stores): parts for the longest store, every store applied as its dimension, the
+			 * points transformed (apply_data); stores = the first k data sets (equal lengths) */
+			size_t k, n = xdata[0].size();
+			if (drv_parse_nat(drv_w[2], &k) || k < 1 || k > 3 || !n) { puts("bad-op"); continue; }
+			bool same = true;
+			for (size_t i = 0; i < k; i++) if (xdata[i].size() != n) same = false;
+			if (!same) { puts("bad-op"); continue; }
+			value_store st[3];
+			bool stored = true;
+			for (size_t i = 0; i < k; i++) if (!st[i].set(span<const double>(xdata[i].data(), (long) n))) stored = false;
+			if (!stored) { puts("R store-failed | C - | I -"); continue; }
+			polyline pl;
+			bool ok = pl.set(current_transform(), span<const value_store>(st, (long) k));
+			span<const linepart> ps = pl.parts();
+			long np = ps.size(), walked = 0, raw = 0, usr = 0;
+			for (polyline::iterator it = pl.begin(), e = pl.end(); it != e && walked <= np; ++it) {
+				polyline::part p = *it;
+				(void) p.points(); (void) p.line();
+				++walked;
+			}
+			printf("R %s n=%ld recs=", ok ? "ok" : "refused", np);
+			if (!np) fputc('-', stdout);
+			for (long i = 0; i < np; i++) {
+				const linepart *lp = ps.begin() + i;
+				printf("%s%u:%u:%u:%u", i ? "," : "", lp->raw, lp->usr, lp->_cut, lp->_trim);
+				raw += lp->raw; usr += lp->usr;
+			}
+			printf(" | C raw=%ld usr=%ld | I len=%zu walked=%ld\n", raw, usr, n, walked);
+		}
+		else if (!strcmp(op, "reset") && drv_nw == 2) {
+			/* linepart::array::set(-1): all points of the existing parts drawn again */
+			if (!arr->set(-1)) { puts("R set-failed | C - | I -"); continue; }
+			dump("ok", xlen);
+		}
+		else if (!strcmp(op, "applybad") && drv_nw == 2) {
+			/* a dimension the transformation does not have */
+			const transform &tr = current_transform();
+			bool a = arr->apply(tr, tr.dimensions(), span<const double>(xdata[0].data(), (long) xdata[0].size()));
+			bool b = arr->apply(tr, -1, span<const double>(xdata[0].data(), (long) xdata[0].size()));
+			dump((a || b) ? "ok" : "refused", xlen);
+		}
+		else if (!strcmp(op, "wjoin") && drv_nw == 4) {
+			/* the C++ wrappers linepart::join / cut() / trim() */
+			linepart to, post;
+			unsigned v[8];
+			if (sscanf(drv_w[2], "%u:%u:%u:%u", &v[0], &v[1], &v[2], &v[3]) != 4 || sscanf(drv_w[3], "%u:%u:%u:%u", &v[4], &v[5], &v[6], &v[7]) != 4) { puts("bad-op"); continue; }
+			bool big = false;
+			for (int i = 0; i < 8; i++) if (v[i] > 65535) big = true;
+			if (big) { puts("bad-op"); continue; }
+			to.raw = v[0]; to.usr = v[1]; to._cut = v[2]; to._trim = v[3];
+			post.raw = v[4]; post.usr = v[5]; post._cut = v[6]; post._trim = v[7];
+			/* cut() / trim() decode the 16-bit codes: code / 65536, exact in a float */
+			if (to.join(post)) printf("R joined %u:%u:%u:%u cut=%ld trim=%ld | C raw=%u usr=%u | I -\n", to.raw, to.usr, to._cut, to._trim,
+			                          lround((double) to.cut() * 65536.0), lround((double) to.trim() * 65536.0), to.raw, to.usr);
+			else printf("R refused %u:%u:%u:%u | C raw=%u usr=%u | I -\n", to.raw, to.usr, to._cut, to._trim, to.raw + post.raw, to.usr + post.usr);
+		}
+		else if (!strcmp(op, "wcode") && drv_nw == 3) {
+			/* linepart::set_cut / set_trim with a value a float holds exactly */
+			double dv;
+			if (parse_val(drv_w[2], strlen(drv_w[2]), &dv) || (double) (float) dv != dv) { puts("bad-op"); continue; }
+			linepart lp;
+			lp.raw = lp.usr = 2; lp._cut = 7; lp._trim = 9;
+			bool a = lp.set_cut((float) dv), b = lp.set_trim((float) dv);
+			printf("R %s cut=%u trim=%u | C - | I -\n", (a && b) ? "ok" : (a || b) ? "mixed" : "refused", lp._cut, lp._trim);
+		}
 		else if (!strcmp(op, "dump") && drv_nw == 2) dump("ok", xlen);
 		else if (!strcmp(op, "poly") && drv_nw == 2) {
 			/* walk the parts as polyline::iterator does, over a point array of length_user() entries */
